@@ -754,6 +754,26 @@ func (c *Ctx) BoolToBV(b *Term, w int) *Term {
 	return c.Ite(b, c.Const(w, 1), c.Const(w, 0))
 }
 
+// SMulNoOvf is true iff the signed product of a and b fits their width.
+func (c *Ctx) SMulNoOvf(a, b *Term) *Term {
+	if a.Sort != b.Sort || a.Sort.K != KBV {
+		panic("sym.SMulNoOvf sorts")
+	}
+	if a.IsConst() && b.IsConst() {
+		p := new(big.Int).Mul(bigSigned(a), bigSigned(b))
+		lim := new(big.Int).Lsh(big.NewInt(1), uint(a.Sort.W-1))
+		return c.Bool(p.Cmp(lim) < 0 && p.Cmp(new(big.Int).Neg(lim)) >= 0)
+	}
+	isSmall := func(t *Term) bool { return t.IsConst() && t.Hi == 0 && t.Val <= 1 }
+	if isSmall(a) || isSmall(b) {
+		return c.True
+	}
+	if a.ID > b.ID {
+		a, b = b, a
+	}
+	return c.mk(&Term{Op: OSMulNoOvf, Sort: BoolSort, Args: []*Term{a, b}})
+}
+
 // ---------- known bits ----------
 
 // Known returns masks of bits known to be zero / one (W<=64 only).
@@ -1203,6 +1223,8 @@ func (c *Ctx) Rebuild(t *Term, a []*Term) *Term {
 		return c.Neg(a[0])
 	case OUlt, OUle, OSlt, OSle:
 		return c.cmp(t.Op, a[0], a[1])
+	case OSMulNoOvf:
+		return c.SMulNoOvf(a[0], a[1])
 	case OConcat:
 		return c.Concat(a[0], a[1])
 	case OExtract:
